@@ -24,13 +24,17 @@ THEOREMS = [N + t for t in [
     "greedy_never_raises", "greedy_colors_support", "greedy_proper_nz", "greedy_proper",
     "colors_partition_support", "rows_disjoint_in_launch", "interleaving_independent",
     "launch_schedule_independent", "singular_slots_injective", "sparse_slots_injective",
-    "potential_columns_disjoint", "indexed_tasks_independent", "ownedCheck_sound",
+    "potential_columns_disjoint", "indexed_tasks_independent", "trace_determines_reads_writes", "ownedCheck_sound",
 ]]
 PARTIAL = {}
 TRUSTED = [
     "hand models lean/BemppVerif/Model/Color.lean (greedy colouring, elements-by-colour, launch loop) and "
-    "Model/Sched.lean (atomic load/store interleavings, scatter loop of the regular kernels), tied to the source by "
-    "exact differential comparison of color_map / get_elements_by_color / global2local / recorded test_elements",
+    "Model/Sched.lean (atomic load/store interleavings, scatter loop of the regular kernels, slot formulas), tied to "
+    "the source by exact differential comparison of color_map / get_elements_by_color / global2local / recorded "
+    "test_elements per kernel call, and of the load/store sequence on `result` recorded while the undecorated source "
+    "(.py_func) of the regular / singular / sparse assembly functions runs on a small grid",
+    "numba compiles the undecorated source faithfully and executes a prange iteration as that iteration's loads/stores "
+    "(in any interleaving with the other iterations)",
     "the premise artificial_dof_owned of greedy_proper is a C09 obligation; here it is checked on every generated space",
     "memory model: loads and stores of one array cell are atomic and sequentially consistent per cell (no torn "
     "8/16-byte writes); numba/LLVM keep the per-iteration arrays (local_result, tmp, ...) private to a prange iteration",
@@ -41,7 +45,8 @@ ASSUMPTIONS = ["grids with < 2^32 dofs (uint32 local2global is modelled by Nat)"
 RULE = ("one case = one real function space (grid x kind x segments/support_elements x include_boundary_dofs x "
         "truncate_at_segment_edge, plus barycentric_representation() and localised_space of it); non-trivial when the "
         "space has at least one zero-multiplier local dof on its support or at least 3 colours; distinct by "
-        "(grid, kind, options).  Oracle thread-matrix cases are counted separately (non-trivial: >= 2 thread counts "
+        "(grid, kind, options).  Kernel-trace cases (one per kernel call of the traced assemblies) and recorded-launch "
+        "cases are counted as well.  Oracle thread-matrix cases are counted separately (non-trivial: >= 2 thread counts "
         "compared on an operator whose test space has >= 3 colours)")
 LEVEL_TEXT = ("Lean 4 theorems (core Lean, no Mathlib), for unbounded sizes: the greedy colouring of "
               "_compute_color_map never raises, colours exactly the support elements and — under artificial_dof_owned — "
@@ -380,6 +385,9 @@ def correspondence(ctx):
     res.stats["spaces_by_kind"] = kinds_seen
     # recorded launches of real dense assemblies
     res.merge(_recorded_launches(ctx, spaces, model_launches))
+    t0 = time.time()
+    res.merge(_kernel_traces(ctx))
+    res.stats["kernel_trace_seconds"] = round(time.time() - t0, 1)
     return res
 
 
@@ -536,6 +544,166 @@ def _recorded_oracle(ctx, spaces, deep=False):
     return res
 
 
+class _Rec:
+    """stands in for the `result` array while the UNDECORATED source of an assembly function runs: logs every
+    element load (`r`) and store (`w`) in program order"""
+
+    def __init__(self, shape, dtype):
+        import numpy as np
+        self.a = np.zeros(shape, dtype)
+        self.dtype = self.a.dtype
+        self.shape = self.a.shape
+        self.log = []
+
+    def __getitem__(self, idx):
+        idx = idx if isinstance(idx, tuple) else (idx,)
+        self.log.append((0,) + tuple(int(i) for i in idx))
+        return self.a[idx]
+
+    def __setitem__(self, idx, v):
+        idx = idx if isinstance(idx, tuple) else (idx,)
+        self.log.append((1,) + tuple(int(i) for i in idx))
+        self.a[idx] = v
+
+
+def _kernel_traces(ctx):
+    """Tie for the scatter loops: run the undecorated Python source (`.py_func`) of the regular, singular and sparse
+    assembly functions on a small grid with `result` replaced by a recorder and compare the recorded load/store
+    sequence with the model (`denseTask` per test element in launch order; slot order of the singular/sparse loops)."""
+    import copy
+    import numpy as np
+    import bempp_cl.api as api
+    from bempp_cl.core import numba_kernels as nk
+    from vlib import meshgen as mg
+    res = Result()
+    V, E = mg.octahedron()
+    grid = api.Grid(V, E, np.array([0, 0, 1, 1, 0, 1, 0, 1], dtype=np.uint32))
+    sub = np.array([0, 1, 2, 3, 4, 6], dtype=np.uint32)
+    p1z = api.function_space(grid, "P", 1, scatter=False, support_elements=sub)  # zero multipliers
+    p1 = api.function_space(grid, "P", 1, scatter=False)
+    dp1 = api.function_space(grid, "DP", 1, scatter=False, segments=[1])
+    rwg = api.function_space(grid, "RWG", 0, scatter=False)
+    sncz = api.function_space(grid, "SNC", 0, scatter=False, support_elements=sub)
+    par = copy.deepcopy(api.GLOBAL_PARAMETERS)
+    par.quadrature.regular = 1
+    par.quadrature.singular = 1
+    plans = [("default_scalar", lambda: api.operators.boundary.laplace.single_layer(dp1, p1z, p1z, assembler="dense",
+                                                                                    parameters=par), p1z, dp1),
+             ("laplace_hypersingular", lambda: api.operators.boundary.laplace.hypersingular(
+                 p1, p1z, p1z, assembler="dense", parameters=par), p1z, p1),
+             ("maxwell_electric_field", lambda: api.operators.boundary.maxwell.electric_field(
+                 rwg, rwg, sncz, 1.3, assembler="dense", parameters=par), sncz, rwg)]
+    if ctx.thorough:
+        plans += [("helmholtz_hypersingular", lambda: api.operators.boundary.helmholtz.hypersingular(
+                      p1, p1z, p1z, 1.3, assembler="dense", parameters=par), p1z, p1),
+                  ("modified_helmholtz_hypersingular", lambda: api.operators.boundary.modified_helmholtz.hypersingular(
+                      p1, p1z, p1z, 1.3, assembler="dense", parameters=par), p1z, p1),
+                  ("maxwell_magnetic_field", lambda: api.operators.boundary.maxwell.magnetic_field(
+                      rwg, rwg, sncz, 1.3, assembler="dense", parameters=par), sncz, rwg)]
+    regular = ["default_scalar_regular_kernel", "laplace_hypersingular_regular", "helmholtz_hypersingular_regular",
+               "modified_helmholtz_hypersingular_regular", "maxwell_efield_regular_assembler",
+               "maxwell_mfield_regular_assembler"]
+    singular = ["default_scalar_singular_kernel", "laplace_hypersingular_singular", "helmholtz_hypersingular_singular",
+                "modified_helmholtz_hypersingular_singular", "maxwell_efield_singular", "maxwell_mfield_singular"]
+    saved = {n: getattr(nk, n) for n in regular + singular + ["default_sparse_kernel"]}
+    logs = []
+
+    def make(name, mode):
+        orig = saved[name]
+
+        def stub(*args):
+            args = list(args)
+            rec = _Rec(args[-1].shape, args[-1].dtype)
+            args[-1] = rec
+            if mode == "sparse":
+                args[14] = args[14].py_func
+            orig.py_func(*args)
+            if mode == "regular":
+                logs.append((mode, name, dict(test=np.asarray(args[4]).astype(int).tolist(),
+                                              trial=np.asarray(args[5]).astype(int).tolist()), rec.log))
+            elif mode == "singular":
+                logs.append((mode, name, dict(n=len(args[4]), nt=int(args[12]), ns=int(args[13])), rec.log))
+            else:
+                logs.append((mode, name, dict(n=len(args[3]), nt=int(args[1]), ns=int(args[2])), rec.log))
+        return stub
+    reqs, handlers = [], []
+    try:
+        for n in regular:
+            setattr(nk, n, make(n, "regular"))
+        for n in singular:
+            setattr(nk, n, make(n, "singular"))
+        nk.default_sparse_kernel = make("default_sparse_kernel", "sparse")
+        runs = []
+        for label, build, ts, ds in plans:
+            logs.clear()
+            try:
+                build().weak_form()
+            except Exception as e:  # noqa
+                res.disagree("kernel trace could not run", operator=label, error=f"{type(e).__name__}: {str(e)[:200]}")
+                continue
+            runs.append((label, ts, ds, list(logs)))
+        logs.clear()
+        try:
+            api.operators.boundary.sparse.identity(p1, p1, p1z, parameters=par).weak_form()
+            runs.append(("l2_identity", p1z, p1, list(logs)))
+        except Exception as e:  # noqa
+            res.disagree("kernel trace could not run", operator="l2_identity", error=f"{type(e).__name__}: {str(e)[:200]}")
+    finally:
+        for n, f in saved.items():
+            setattr(nk, n, f)
+    for label, ts, ds, lg in runs:
+        l2t, l2s = np.asarray(ts.local2global), np.asarray(ds.local2global)
+        for mode, name, info, log in lg:
+            if mode == "regular":
+                # one request per test element; the kernel call's log must be their concatenation in launch order
+                parts = []
+                for te in info["test"]:
+                    reqs.append(f"densetask {l2t.shape[1]} {l2s.shape[1]} {len(info['trial'])} "
+                                + " ".join(map(str, l2t[te].tolist())) + " "
+                                + " ".join(str(int(x)) for tr in info["trial"] for x in l2s[tr]))
+                    parts.append(len(reqs) - 1)
+
+                def h(answers, parts=parts, log=log, name=name, info=info, label=label):
+                    model = []
+                    for k in parts:
+                        t = answers[k].split()
+                        if t[0] != "ok":
+                            res.disagree("densetask status", function=name, model=answers[k][:60])
+                            return
+                        v = [int(x) for x in t[2:]]
+                        model += [tuple(v[3 * i:3 * i + 3]) for i in range(len(v) // 3)]
+                    if model != log:
+                        k = next((i for i, (a, b) in enumerate(zip(model, log)) if a != b), min(len(model), len(log)))
+                        res.disagree("load/store sequence of the regular scatter loop", function=name, operator=label,
+                                     test_elements=info["test"], first_diff=k, impl=log[k:k + 3], model=model[k:k + 3],
+                                     impl_len=len(log), model_len=len(model))
+                handlers.append(h)
+                res.case(("trace", label, name, tuple(info["test"])), nontrivial=True,
+                         sample=dict(trace=name, test_elements=info["test"], accesses=len(log)) if len(res.samples) < 1 else None)
+            else:
+                reqs.append(f"slots {'singular' if mode == 'singular' else 'sparse'} {info['n']} {info['nt']} {info['ns']}")
+                kreq = len(reqs) - 1
+
+                def h(answers, kreq=kreq, log=log, name=name, info=info, label=label):
+                    t = answers[kreq].split()
+                    model = [int(x) for x in t[1:]]
+                    cells = [c[1] for c in log]
+                    dedup = [c for i, c in enumerate(cells) if i == 0 or cells[i - 1] != c]
+                    if t[0] != "ok" or dedup != model:
+                        res.disagree("slot order of the per-index prange loop", function=name, operator=label, info=info,
+                                     impl=dedup[:12], model=model[:12])
+                    if any(len(c) != 2 for c in log):
+                        res.disagree("per-index result is not one-dimensional", function=name)
+                handlers.append(h)
+                res.case(("trace", label, name), nontrivial=info["n"] > 1)
+    if reqs:
+        answers = run_driver(reqs)
+        for h in handlers:
+            h(answers)
+    res.count("kernel_trace_requests", len(reqs))
+    return res
+
+
 # ------------------------------------------------------------------------------------------------
 # oracle
 
@@ -618,7 +786,7 @@ _FOUND = {"n": 0}
 def search(ctx, broken):
     """failing-input search after a broken proof / tie: the oracle with the thorough-size generators, unless the
     oracle of this run has already produced a concrete counterexample"""
-    if _FOUND["n"] and not any(b.get("kind") == "replay" for b in broken):
+    if _FOUND["n"]:
         return Result()
     return oracle(ctx, deep=True)
 
